@@ -738,9 +738,9 @@ Proof.
     vm_compute. splits; reflexivity.
 Qed.
 
-(** C15-F6: nothing named `zz` is in the query, yet the query is re-ordered and re-encoded;
-    with fixes/C15-F6.diff it is forwarded as it came *)
-Theorem F6_refuted : exists q pl r,
+(** C15-F6 (repaired by 5270ed2): nothing named `zz` is in the query, yet the query was re-ordered
+    and re-encoded; since the repair it is forwarded as it came *)
+Theorem F6_pinned_refuted : exists q pl r,
   guard_F6 q r = true /\ spec_ok q pl r (serve repaired q pl r) = false /\
   forwarded_uri (serve repaired q pl r) = "/x?a=~&b=1" /\
   spec_ok q pl r (serve repaired2 q pl r) = true /\ forwarded_uri (serve repaired2 q pl r) = "/x?b=1&a=%7E".
@@ -749,9 +749,9 @@ Proof.
   vm_compute. splits; reflexivity.
 Qed.
 
-(** C15-F7: a trusted peer sends its chain in two X-Forwarded-For lines; the second is lost;
-    with fixes/C15-F7.diff both are kept *)
-Theorem F7_refuted : exists q pl r,
+(** C15-F7 (repaired by f228b67): a trusted peer sends its chain in two X-Forwarded-For lines; the
+    second was lost; since the repair both are kept *)
+Theorem F7_pinned_refuted : exists q pl r,
   guard_F7 q = true /\ spec_ok q pl r (serve repaired q pl r) = false /\
   forwarded_field "X-Forwarded-For" (serve repaired q pl r) = ["10.0.0.1, 127.0.0.2"] /\
   spec_ok q pl r (serve repaired2 q pl r) = true /\
@@ -812,10 +812,35 @@ Example nonvacuous :
   oracle_ok nv_req = true /\
   guard_F2 nv_req = false /\ guard_F3 nv_req nv_rule = false /\ guard_F5 nv_rule = false /\
   guard_F6 nv_req nv_rule = false /\ guard_F7 nv_req = false /\ guard_F8 nv_pl nv_rule = false /\
-  serve repaired nv_req nv_pl nv_rule =
+  serve repaired2 nv_req nv_pl nv_rule =
     Forwarded true "POST" "/up/v1%2Fx/%3Bq%41?b=%2F&c=" "up:8080"
       [("Accept", ["*/*"]); ("Accept-Encoding", ["gzip"]); ("Authorization", ["Bearer t"]);
        ("Cookie", ["c=1; sid=1"]); ("Forwarded", ["for=127.0.0.9;host=h.example.com;proto=https"]);
        ("X-Role", [""]); ("X-User", ["alice"; "second"])] "{""a"":1}" /\
-  spec_ok nv_req nv_pl nv_rule (serve repaired nv_req nv_pl nv_rule) = true.
+  spec_ok nv_req nv_pl nv_rule (serve repaired2 nv_req nv_pl nv_rule) = true.
+Proof. vm_compute. splits; reflexivity. Qed.
+
+(** a second witness: a TRUSTED peer whose chain comes in two X-Forwarded-For
+    lines and whose X-Forwarded-Uri / -Proto / -Host define the view; a query that
+    is kept byte for byte although a parameter list is configured *)
+Definition nv2_req : request :=
+  {| q_method := "GET"; q_raw := "/ignored"; q_query := "z=0"; q_host := "h.example.com";
+     q_headers := [("X-Forwarded-For", "10.0.0.1"); ("x-forwarded-for", "10.0.0.2");
+                   ("X-Forwarded-Uri", "/api/o%2Fp?b=1&a=%7E&&c"); ("X-Forwarded-Host", "orig.example.com");
+                   ("X-Forwarded-Method", "GET"); ("X-Forwarded-Path", "/p")];
+     q_body := ""; q_tls := false; q_peer := "127.0.0.2"; q_trusted := true;
+     q_xfu := Some ("/api/o%2Fp", "b=1&a=%7E&&c") |}.
+Definition nv2_rule : rule :=
+  {| r_setting := NoDecode; r_backend := {| b_host := "up:8080"; b_rw := ex_rw "/api" "" ["zz"] |};
+     r_up_tls := false; r_tracing := false |}.
+
+Example nonvacuous_trusted :
+  oracle_ok nv2_req = true /\
+  guard_F2 nv2_req = false /\ guard_F3 nv2_req nv2_rule = false /\ guard_F5 nv2_rule = false /\
+  guard_F8 no_pl nv2_rule = false /\ guard_F9 nv2_req = false /\
+  serve repaired2 nv2_req no_pl nv2_rule =
+    Forwarded false "GET" "/o%2Fp?b=1&a=%7E&&c" "up:8080"
+      [("Accept-Encoding", ["gzip"]); ("X-Forwarded-For", ["10.0.0.1, 10.0.0.2, 127.0.0.2"]);
+       ("X-Forwarded-Host", ["orig.example.com"]); ("X-Forwarded-Proto", ["http"])] "" /\
+  spec_ok nv2_req no_pl nv2_rule (serve repaired2 nv2_req no_pl nv2_rule) = true.
 Proof. vm_compute. splits; reflexivity. Qed.
